@@ -70,6 +70,8 @@ inductive Window
   | falseJif (lo x : Nat)
   | arith (boff aoff ip b a r : Nat) (o : Op)
   | cmp (boff aoff ip b a : Nat) (t : Bool)
+  /-- the square-root fold (never validated: it changes the type of the result, known finding KF-12) -/
+  | sqrt (lo : Nat)
   deriving Repr
 
 def Window.lo : Window → Nat
@@ -77,12 +79,14 @@ def Window.lo : Window → Nat
   | .falseJif lo _ => lo
   | .arith boff .. => boff
   | .cmp boff .. => boff
+  | .sqrt lo => lo
 
 def Window.hi : Window → Nat
   | .trueJif lo => lo + 4
   | .falseJif _ x => x
   | .arith _ _ ip .. => ip + 1
   | .cmp _ _ ip .. => ip + 1
+  | .sqrt lo => lo + 4
 
 def findWindow (I I' : IL) : Option Window :=
   match firstDiff I I' with
@@ -90,12 +94,14 @@ def findWindow (I I' : IL) : Option Window :=
   | some lo =>
     match instrAt I lo with
     | some ⟨.true, _⟩ => some (.trueJif lo)
+    | some ⟨.squareRoot, _⟩ => some (.sqrt lo)   -- √0, √1: only the operator changes
     | some ⟨.false, _⟩ =>
       (match instrAt I (lo + 1) with
        | some ⟨.jumpIfFalse, x⟩ => some (.falseJif lo x)
        | _ => none)
     | some ⟨.push, b⟩ =>
       (match nextReal I (lo + 3) with
+       | some (_, ⟨.squareRoot, _⟩) => some (.sqrt lo)
        | some (aoff, ⟨.push, a⟩) =>
          (match nextReal I (aoff + 3) with
           | some (ip, ⟨o, _⟩) =>
@@ -127,6 +133,7 @@ def windowOk (I I' : IL) (len : Nat) : Window → Bool
       ((I.contains (ip, ⟨.equal, 0⟩) && t == (a == b)) || (I.contains (ip, ⟨.notEqual, 0⟩) && t == (a != b))) &&
       boff + 3 ≤ aoff && aoff + 3 ≤ ip && a < 65536 && b < 65536 &&
       nopsB I' boff ip && I'.contains (ip, ⟨if t then .true else .false, 0⟩)
+  | .sqrt _ => false
 
 /-- a body that decodes, whose fall-throughs and jumps all land on instruction starts -/
 def wfB (c : Bytes) : Bool :=
@@ -145,6 +152,52 @@ def validStep (c c' : Bytes) : Bool :=
        windowOk I I' c.length w && outsideB I I' c.length w.lo w.hi &&
        safeB I c.length w.lo w.hi 0 && safeB I c.length w.lo w.hi w.hi && w.lo < w.hi)
   | _, _ => false
+
+/-! ### the two passes that shorten the program -/
+
+/-- `removeDeadCode`: `c'` is the beginning of `c`, up to the first OpReturn, and there is no jump in it -/
+def validDead (c c' : Bytes) : Bool :=
+  match WF.decode 0 c, WF.decode 0 c' with
+  | some I, some I' =>
+    (offs I').contains 0 &&
+    I'.all fun p =>
+      I.contains p && p.2.op != .jump && p.2.op != .jumpIfFalse &&
+      (p.2.op == .return || (offs I').contains (p.1 + p.2.size))
+  | _, _ => false
+
+/-- new offset of every instruction start of the program (and of its end), when the NOPs are dropped -/
+def stripMap (I : IL) (len : Nat) : List (Nat × Nat) :=
+  let rec go : IL → Nat → List (Nat × Nat)
+    | [], n => [(len, n)]
+    | (o, i) :: r, n => (o, n) :: go r (if i.op == .nop then n else n + i.size)
+  go I 0
+
+def remap (rw : List (Nat × Nat)) (i : Instr) : Instr :=
+  if i.op == .jump || i.op == .jumpIfFalse then ⟨i.op, (rw.lookup i.arg).getD 0⟩ else i
+
+/-- `removeNOPs`: `c'` is `c` without its NOPs, jump operands moved along - checked instruction by
+    instruction against the offset map -/
+def validStrip (c c' : Bytes) : Bool :=
+  match WF.decode 0 c, WF.decode 0 c' with
+  | some I, some I' =>
+    let rw := stripMap I c.length
+    rw.lookup 0 == some 0 && rw.lookup c.length == some c'.length && c'.isEmpty == c.isEmpty &&
+    (c.length == 0 || (offs I).contains 0) &&
+    I.all fun p =>
+      match rw.lookup p.1 with
+      | none => false
+      | some n =>
+        if p.2.op == .nop then rw.lookup (p.1 + 1) == some n
+        else
+          I'.contains (n, remap rw p.2) &&
+          (p.2.op == .return || p.2.op == .jump || rw.lookup (p.1 + p.2.size) == some (n + p.2.size)) &&
+          ((p.2.op != .jump && p.2.op != .jumpIfFalse) ||
+            (p.2.arg < c.length && (offs I).contains p.2.arg &&
+              (match rw.lookup p.2.arg with | some m => m < c'.length | none => false)))
+  | _, _ => false
+
+/-- one validated step of any of the four passes -/
+def okStep (c c' : Bytes) : Bool := validStep c c' || validStrip c c' || validDead c c'
 
 /-! ### the optimizer's two rewriting passes, with every step validated -/
 
@@ -180,6 +233,60 @@ def rewriteTrace (bs : Bytes) : Option (List Bytes) :=
       | none => none
       | some L2 => if wfB (lastOf b1 L2) then some (L1 ++ L2) else none
   else none
+
+/-- every stage of `optimize` after `bs` (the rewriting passes, then NOP removal, then dead-code removal),
+    each step validated, first and last stage well-formed -/
+def fullTrace (bs : Bytes) : Option (List Bytes) :=
+  match rewriteTrace bs with
+  | none => none
+  | some L =>
+    let b2 := lastOf bs L
+    let b3 := Optimizer.removeNOPs b2
+    let b4 := Optimizer.removeDeadCode b3
+    let s3 : List Bytes := if b3 = b2 then [] else [b3]
+    let s4 : List Bytes := if b4 = b3 then [] else [b4]
+    if (b3 = b2 || validStrip b2 b3) && (b4 = b3 || validDead b3 b4) && wfB b4 then some (L ++ s3 ++ s4) else none
+
+/-- why `fullTrace` refuses a body (for the reports of the checks) -/
+def whyRefused (bs : Bytes) : String :=
+  let kind (b b' : Bytes) : String :=
+    match WF.decode 0 b, WF.decode 0 b' with
+    | some I, some I' =>
+      (match findWindow I I' with
+       | some (.sqrt _) => "sqrt-fold"
+       | some (.trueJif lo) => s!"true-jif@{lo}"
+       | some (.falseJif lo _) => s!"false-jif@{lo}"
+       | some (.arith lo ..) => s!"arith@{lo}"
+       | some (.cmp lo ..) => s!"cmp@{lo}"
+       | none => "no-window")
+    | _, _ => "decode"
+  let rec maths (fuel : Nat) (b : Bytes) : Option String × Bytes :=
+    match fuel with
+    | 0 => (none, b)
+    | fuel + 1 =>
+      match Optimizer.mathsWalk (b.length + 1) b 0 [] with
+      | .changed b' => if validStep b b' then maths fuel b' else (some ("maths:" ++ kind b b'), b)
+      | _ => (none, b)
+  let rec jumps (fuel : Nat) (b : Bytes) : Option String × Bytes :=
+    match fuel with
+    | 0 => (none, b)
+    | fuel + 1 =>
+      match Optimizer.jumpsWalk (b.length + 1) b 0 Op.nop.toNat with
+      | some b' => if validStep b b' then jumps fuel b' else (some ("jumps:" ++ kind b b'), b)
+      | none => (none, b)
+  if !wfB bs then "raw-not-well-formed" else
+  match maths (bs.length + 1) bs with
+  | (some w, _) => w
+  | (none, b1) =>
+    match jumps (b1.length + 1) b1 with
+    | (some w, _) => w
+    | (none, b2) =>
+      if !wfB b2 then "rewritten-not-well-formed" else
+      let b3 := Optimizer.removeNOPs b2
+      if !(b3 = b2 || validStrip b2 b3) then "remove-nops" else
+      let b4 := Optimizer.removeDeadCode b3
+      if !(b4 = b3 || validDead b3 b4) then "remove-dead-code" else
+      if !wfB b4 then "optimised-not-well-formed" else "?"
 
 /-- the stage a body is in after `t` steps of the trace `L` (it stays in the last one) -/
 def stageAt : List Bytes → Bytes → Nat → Bytes
